@@ -20,5 +20,7 @@ for k in 1 35; do echo "=== alloc f12 $k"; $d/alloc f12 $k 2>&1 | grep -E "F12|S
 echo "=== alloc f14"; $d/alloc f14 2>&1 | head -3
 clang $F -DNDEBUG $here/design_bgpsec.c $S -o $d/bgpsec $L
 echo "=== bgpsec (F5)"; $d/bgpsec 2>/dev/null | tail -1
+clang $F -DNDEBUG -fsanitize=address $here/design_bgpsec.c $S -o $d/bgpsec_asan $L
+echo "=== bgpsec f19"; $d/bgpsec_asan f19 2>&1 | grep -E "AddressSanitizer|#[23] .*rtrlib" | head -5 || true
 clang $F -O1 -DNDEBUG -fsanitize=thread $here/design_race.c $S -o $d/race $L
 echo "=== race (F10)"; $d/race 2>&1 | grep -E "WARNING: ThreadSanitizer|SUMMARY|#0 pfx" | head -6 || true
